@@ -24,7 +24,7 @@ HIST_RULE = ("hist driver: seeded random histories (login, proxied request with 
              "(mode x forward-auth x inactivity x ACR x token lifetime); distinct = (mode, op, cookie state, store state, provider plan, status, forwarded, token written, provider contacted, post state); "
              "non-trivial = a session cookie was presented. ")
 
-MANAGER_SECTIONS = ['Manager/' + n for n in ('create', 'delete', 'deleteForExternalID', 'getOrRefresh', 'refresh', 'deleteForKey', 'update', 'acquireLock', 'readerGet', 'getForTicket', 'redisRead', 'redisWrite', 'redisUpdate', 'redisDelete', 'redisMakeLock', 'memoryUpdate', 'memoryMakeLock', 'redisLockAcquire', 'redisLockRelease')] + \
+MANAGER_SECTIONS = ['Manager/' + n for n in ('create', 'delete', 'deleteForExternalID', 'getOrRefresh', 'refresh', 'deleteForKey', 'update', 'acquireLock', 'readerGet', 'getForTicket', 'redisRead', 'redisWrite', 'redisUpdate', 'redisDelete', 'redisMakeLock', 'memoryUpdate', 'memoryMakeLock', 'redisLockAcquire', 'redisLockRelease', 'retryFibonacci', 'retryDo', 'retryDoValue')] + \
     ['pkg/session/session_manager.go', 'pkg/session/session_reader.go', 'pkg/session/store_redis.go', 'pkg/session/store_memory.go', 'pkg/session/lock.go']
 HANDLER_SECTIONS = ['Handlers/' + n for n in ('getSession', 'logout', 'logoutLocal', 'logoutCallback', 'logoutFrontChannel', 'sessionInfo', 'sessionRefresh', 'sessionForwardAuth', 'handleGetSessionError', 'loginCallback', 'proxyGetSession', 'proxyHandler', 'getSessionWithValidToken', 'handleAutologin', 'proxyGetSSOServerURL', 'proxyLogin', 'proxyLoginCallback', 'proxyLogout', 'proxyLogoutCallback', 'proxyLogoutFrontChannel', 'proxyLogoutLocal', 'proxySession', 'proxySessionRefresh', 'proxySessionForwardAuth', 'proxyWildcard', 'serverLogout', 'serverLogoutFrontChannel', 'serverLogoutLocal', 'serverWildcard', 'clientLoginCallback', 'issuerIdentification', 'redeemTokens', 'stateMismatchError', 'getCookieOptions', 'login', 'applyLoginRateLimit', 'respondError', 'retryURI', 'newStandaloneRedirect', 'standaloneCanonical', 'standaloneClean', 'standaloneFallback', 'newSSOServerRedirect', 'ssoServerCanonical', 'ssoServerClean', 'newSSOProxyRedirect', 'ssoProxyCanonical', 'ssoProxyClean', 'ssoProxyFallback', 'cleanRedirect', 'redirectQueryParam', 'fallbackRedirect', 'absoluteIsValid', 'relativeIsValid', 'parsableRequestURI', 'isAllowedHost', 'isValidScheme', 'isRelativeURL', 'isValidAbsolutePath', 'isAllowedDomain', 'acrHandlerValidate', 'acrNewHandler', 'matchingIngress', 'matchingPath', 'parseIngress', 'mustScheme', 'clientLogin', 'newAuthorizationCodeParams', 'authCodeURL', 'loginSetCookie', 'authRequestParams', 'authCookie', 'parRequestParams')] + \
     ['pkg/handler/handler.go', 'pkg/handler/handler_sso_proxy.go', 'pkg/handler/handler_sso_server.go', 'pkg/handler/reverseproxy.go', 'pkg/openid/client/login_callback.go', 'pkg/openid/oauth2.go', 'pkg/handler/error.go', 'pkg/url/redirect.go', 'pkg/url/validator.go', 'pkg/handler/acr/acr.go', 'pkg/ingress/ingress.go', 'pkg/openid/client/login.go']
@@ -172,20 +172,20 @@ PROPS = {
         'assumptions': ["H-CLOCK", "H-AEAD"],
     },
     'C11': {
-        'proofs': ['Ww.Proofs.C11', 'Ww.Proofs.GenTie.C01', 'Ww.Proofs.GenTie.C07', 'Ww.Proofs.GenTie.Handlers', 'Ww.Proofs.GenTie.Grant'],
-        'gen_sections': HANDLER_SECTIONS + MANAGER_SECTIONS + ['Meta', 'Dec/sessionCanRefresh', 'Dec/sessionShouldRefresh', 'Dec/sessionYieldsToken', 'Dec/acrValidate', 'pkg/session/session.go'] + PROVIDER_SECTIONS,
-        'drivers': [{'name': 'fault', 'timeout': 1500}, {'name': 'hist'}],
+        'proofs': ['Ww.Proofs.C11', 'Ww.Proofs.GenTie.C01', 'Ww.Proofs.GenTie.C07', 'Ww.Proofs.GenTie.Handlers', 'Ww.Proofs.GenTie.Grant', 'Ww.Proofs.Retry', 'Ww.Proofs.GenTie.Retry'],
+        'gen_sections': HANDLER_SECTIONS + MANAGER_SECTIONS + ['Consts', 'Meta', 'Dec/sessionCanRefresh', 'Dec/sessionShouldRefresh', 'Dec/sessionYieldsToken', 'Dec/acrValidate', 'pkg/session/session.go'] + PROVIDER_SECTIONS,
+        'drivers': [{'name': 'fault', 'timeout': 1500}, {'name': 'hist'}, {'name': 'retry'}],
         'reasons': ['C11.'],
-        'class_fields': _merge(HIST_CLASS, {'fault': ['handler', 'prestate', 'fpos', 'fkind', 'fcount', 'status', 'upauth'], 'faultdry': ['handler', 'prestate']}),
+        'class_fields': _merge(HIST_CLASS, {'fault': ['handler', 'prestate', 'fpos', 'fkind', 'fcount', 'status', 'upauth'], 'faultdry': ['handler', 'prestate'], 'retry': ['wave', 'mode', 'kind', 'd', 'outcome']}),
         'nontrivial': _merge(HIST_NT, {'faultdry': lambda f: False}),
         'rule': "fault driver: for 7 handlers x pre-states {fresh, refresh due, expired} the fault-free sequence of store commands / lock scripts / provider calls is recorded, then at EVERY position a fault is injected: "
                 "1 failure, 2 failures, a fault outlasting the 5 s retry budget; for the provider 5xx (1, 2, persistent), 4xx and a non-JSON 200 (quick drops the double failures except at the lookup; 24 cases in parallel). "
-                "hist driver: provider answers ok/4xx/5xx/garbage along random histories. distinct = (handler, pre-state, position, fault kind, count, outcome).",
+                "hist driver: provider answers ok/4xx/5xx/garbage along random histories. retry driver: the real pkg/retry around a function failing until d (10 durations + never, Do and DoValue, non-retryable errors), attempt offsets against the model schedule, a second wave after a whole budget has passed. distinct = (handler, pre-state, position, fault kind, count, outcome).",
         'level_text': "Proof: with an adversarial fault oracle over lookup, lock, re-read, provider answer, write-back and delete, a token is forwarded only if the session was read (or just granted and stored) and validated in this request and is unexpired; "
                       "an expired token is never forwarded whichever fault prevents the refresh; a 4xx from the provider makes proxied requests go on without token and forward-auth / manual refresh answer 401; a logout whose lookup or delete failed "
-                      "never answers success; without faults the faulty handlers equal the ordinary ones. Retries are modelled as 'fails only if the fault outlasts the budget'; real back-off timing is measured, not modelled." + HANDLER_TIE +
+                      "never answers success; without faults the faulty handlers equal the ordinary ones. Retries are modelled as 'fails only if the fault outlasts the budget'; that abstraction is itself proved for the back-off policy (Model/Retry, Proofs/Retry): for EVERY base, budget and fault length, a fault ending within the budget is absorbed by an attempt made within the budget (the last attempt is made exactly when the budget runs out), a longer one ends the call after finitely many strictly increasing attempts; instantiated at the constants and statements regenerated from pkg/retry/retry.go (fresh back-off per call) and tied to the real library by attempt offsets in two waves." + HANDLER_TIE +
                       " Client.RefreshGrant and the back-channel POST are translated on every run (Gen/Provider): a refresh answer is accepted on one path only (authenticated POST of the caller's refresh token to the token endpoint, body parsed, access token present); 4xx is a client error, 5xx a server error, a body is handed on only from a non-error answer.",
-        'level_note': "Trusted: Lean kernel; go-retry (Fibonacci 50 ms, 5 s budget) as 'finitely many attempts, success iff one succeeds'; an error from the lock script is not retried (observed, noted in DESIGN); fault = error reply on the replica's connection at a command boundary.",
+        'level_note': "Trusted: Lean kernel; go-retry's timers and Fibonacci state (modelled in Model/Retry with operations taking no time; tied by the retry driver with a tolerance of +150 ms per attempt); an error from the lock script is not retried (observed, noted in DESIGN); fault = error reply on the replica's connection at a command boundary.",
         'technique': 'Lean 4 proof over the handler model with a fault oracle + fault injection at every store/provider position on real replicas',
         'trusted': ["go-retry contract (Appendix C)", "H-CLOCK"],
         'assumptions': ["faults occur at store-command / provider-call boundaries"],
